@@ -18,9 +18,14 @@
 
 #include "statement.h"
 #include "parser.h"
+#include "verif_hook.h"
 
 #include <cstring>
 #include <cstddef>
+
+#ifdef BLOC_VERIF
+extern "C" { void (*bloc_verif_point_cb)(int kind, const void * addr) = nullptr; }
+#endif
 
 namespace bloc
 {
@@ -46,6 +51,7 @@ Statement::~Statement()
 const Statement *Statement::execute(Context& ctx) const
 {
   bool trace = ctx.trace();
+  BLOC_VERIF_POINT(BLOC_VP_STATEMENT, this);
   _level = ctx.execLevel();
   if (trace) trace_pre(ctx);
   const Statement * next = doit(ctx);
